@@ -14,7 +14,37 @@ import (
 	"verif/wire"
 )
 
-func init() { checks["C14"] = checkC14 }
+func init() {
+	checks["C14"] = checkC14
+	children["C14pool"] = childC14Pool
+}
+
+// childC14Pool drives the batching pool through connection loss and recovery (the workload
+// of C13) only to let the race detector watch the pool's recovery path; outcomes are C13's.
+func childC14Pool(args []string) int {
+	run, finish := childRun("C14", "exploration")
+	n := run.Pick(24, 200)
+	cuts := []string{"before", "after", "mid", "repeated", "idle", "outage"}
+	var wg sync.WaitGroup
+	sem := make(chan struct{}, 8)
+	for i := 0; i < n; i++ {
+		cs := c13Case{Pool: []int{1, 2, 4}[i%3], Callers: []int{4, 8, 32}[i%3], Mix: []string{"single", "mget-nonquiet", "mixed"}[i%3],
+			Cut: cuts[i%len(cuts)], J: i % 4, Bytes: []int{1, 24, 25, 40}[i%4], Batch: []int{2, 10}[i%2]}
+		wg.Add(1)
+		sem <- struct{}{}
+		go func(i int, cs c13Case) {
+			defer wg.Done()
+			defer func() { <-sem }()
+			announceCase("pool recovery " + cs.String())
+			v := c13RunCase(cs, run.Seed()*7+int64(i))
+			run.Count("pool_recovery_cases", 1)
+			run.Count("pool_cuts_fired", v.Cuts)
+			run.Count("pool_operations", v.Ops)
+		}(i, cs)
+	}
+	wg.Wait()
+	return finish()
+}
 
 // c14Conn runs one connection's private workload; returns a description of the first mismatch.
 func c14Conn(p *harness.Proxy, binary bool, port int, conn int, ncmd int, seed int64, ops *int64, errShare int) (string, map[string]interface{}) {
@@ -207,11 +237,11 @@ func checkC14(tier, replay string) int {
 				close(stop)
 				close(fails)
 				run.Eval(1)
-				run.Count("commands", ops)
-				run.Count("metrics_scrapes", scrapes)
+				run.Count("commands", atomic.LoadInt64(&ops))
+				run.Count("metrics_scrapes", atomic.LoadInt64(&scrapes))
 				run.Distinct(fmt.Sprintf("%s|rep%d", what, rep))
 				if si == 0 && rep == 0 {
-					run.Sample(map[string]interface{}{"config": what, "commands_per_connection": ncmd, "commands_executed": ops, "metrics_scrapes": scrapes})
+					run.Sample(map[string]interface{}{"config": what, "commands_per_connection": ncmd, "commands_executed": atomic.LoadInt64(&ops), "metrics_scrapes": atomic.LoadInt64(&scrapes)})
 				}
 				for f := range fails {
 					f.w["config"] = sh.cfg
@@ -241,6 +271,22 @@ func checkC14(tier, replay string) int {
 		}
 	}
 	wg.Wait()
+	// the pool's recovery path needs connection loss: library-level workload of C13 under -race
+	res := spawnChild(run, "C14pool", 20*time.Minute, nil)
+	run.Eval(1)
+	run.Distinct("pool-recovery")
+	if res.TimedOut {
+		run.Inconclusive("pool recovery workload did not finish")
+	} else if res.Crashed || res.ExitCode != 0 {
+		run.Violation("batched pool|process terminated: "+crashKind(res.Stderr), map[string]interface{}{"last_case": res.LastCase, "stderr_tail": lastLines(res.Stderr, 60)})
+	}
+	for _, r := range parseRaces(res.Stderr) {
+		run.Count("race_reports", 1)
+		if r.InRend {
+			run.Violation("data race: "+r.Pair, map[string]interface{}{"workload": "batching pool under connection loss", "report": r.Text})
+		}
+	}
 	run.Floor("commands", 5000)
+	run.Floor("pool_cuts_fired", 10)
 	return run.Finish()
 }
